@@ -4,6 +4,7 @@ import (
 	"fmt"
 	"runtime"
 	"strings"
+	"time"
 	"unsafe"
 
 	"verifsim/engine"
@@ -146,6 +147,16 @@ func (r Readers) Execute(pl engine.Plan, c *engine.RunCtx) *engine.Failure {
 				outs[t][i] = execOp(w, ops[i], i&1 == 1, pz[2])
 				tk.InCall = false
 				c.Status.SetStep(uint64(100000+t*1000+i), 0)
+			}
+		})
+	}
+	if r.yield && p.GCPoints > 0 {
+		sch.Spawn(func(tk *engine.Task) {
+			for i := 0; i < p.GCPoints; i++ {
+				tk.Yield()
+				forceGC()
+				st.Inc("fault.fired.gc.forced_collection_with_finalizers")
+				c.FaultsFired++
 			}
 		})
 	}
@@ -338,6 +349,20 @@ func livePanic(sch *engine.Sched, step int) *engine.Failure {
 		}
 	}
 	return nil
+}
+
+// forceGC runs a garbage collection and waits until the finalizers it queued
+// have run (a sentinel's finalizer is queued last), for at most a second.
+func forceGC() {
+	done := make(chan struct{})
+	s := new([64]byte)
+	runtime.SetFinalizer(s, func(*[64]byte) { close(done) })
+	s = nil
+	runtime.GC()
+	select {
+	case <-done:
+	case <-time.After(time.Second):
+	}
 }
 
 var padKeep [][]byte
